@@ -1,6 +1,6 @@
 import Driver.C14
 namespace SV.Drv.C26
-open SV SV.Drv SV.Yaml
+open SV SV.Drv SV.YamlRef
 
 /-- The stream is admissible, the harness rendered it as `render` does, and `loadRef` returns its trees. -/
 def checkStream (br nd toks hex : String) : Except String (List Tree) :=
